@@ -41,6 +41,8 @@ def gen_world(rng, i, tier):
         uni_s = [None] + ["m%02d" % k for k in range(rng.pick([9, 16, 17, 33]))]     # section list past its allocation steps
         n = max(n, 40)
     uni_k = rng.subset(KEYS, 1, 5)
+    if rng.chance(0.08):
+        uni_k = uni_k + rng.subset(["t ", " l", "tab\t", "t", "l"], 2, 4)     # a key is any non-empty text: outer blanks belong to it
     if rng.chance(0.05):
         uni_k = uni_k + ["K" * rng.pick([200, 1030, 3000])]      # long (but far below BUFSIZ) key and section names
         uni_s = uni_s + ["S" * rng.pick([200, 1030, 3000])]
